@@ -104,6 +104,14 @@ def to_str(e):
     raise ValueError(e)
 
 
+def to_str_top(e):
+    """Like to_str but without the outermost parentheses, the way a user writes 'beta*S*I + eps*S'."""
+    s = to_str(e)
+    if e[0] in ("+", "*", "/") and s.startswith("(") and s.endswith(")"):
+        return s[1:-1]
+    return s
+
+
 def atoms(e, kind, acc=None):
     acc = set() if acc is None else acc
     if e[0] == kind:
@@ -176,6 +184,8 @@ def mag_expr(mag):
         return P(mag["par"])
     if "der" in mag:
         return D(mag["der"])
+    if "sum" in mag:                      # [parameter name, integer]  ->  'name+c'
+        return add(P(mag["sum"][0]), C(int(mag["sum"][1])))
     raise ValueError(mag)
 
 
@@ -188,6 +198,8 @@ def mag_str(mag):
         return mag["par"]
     if "der" in mag:
         return mag["der"]
+    if "sum" in mag:
+        return "%s+%d" % (mag["sum"][0], int(mag["sum"][1]))
     raise ValueError(mag)
 
 
